@@ -490,6 +490,77 @@ mod mon_bytes_run {
             |a, b| a.merge(b),
         );
         acc.merge(acc2);
+        // the CLI writes pickles to files: the FRAME rule must hold for the bytes on disk too, also
+        // when the destination already holds a longer file from an earlier run
+        if std::env::var("PFV_CLI").is_ok() {
+            use std::sync::atomic::{AtomicUsize, Ordering};
+            static DIRS: AtomicUsize = AtomicUsize::new(0);
+            let cli = std::env::var("PFV_CLI").unwrap();
+            let fe = par_run(
+                if thorough { 48 } else { 12 },
+                Acc::new,
+                |i, acc| {
+                    let proto = 4 + (i % 2) as u8;
+                    let d = std::env::temp_dir().join(format!("pfv-c06-{}-{}", std::process::id(), DIRS.fetch_add(1, Ordering::Relaxed)));
+                    let _ = std::fs::remove_dir_all(&d);
+                    let run = |extra: &[&str]| {
+                        std::process::Command::new(&cli)
+                            .arg("--dir")
+                            .arg(&d)
+                            .args(["--samples", "12", "--protocol", &proto.to_string()])
+                            .args(extra)
+                            .output()
+                    };
+                    // first a run with long pickles, then one with short pickles into the same directory
+                    let r1 = run(&["--min-opcodes", "200", "--max-opcodes", "300"]);
+                    let r2 = if i % 3 == 0 { run(&["--min-opcodes", "5", "--max-opcodes", "10", "--unsafe-mutations", "--mutators", "all"]) } else { run(&["--min-opcodes", "5", "--max-opcodes", "10"]) };
+                    if !matches!((&r1, &r2), (Ok(a), Ok(b)) if a.status.success() && b.status.success()) {
+                        acc.inconclusive.push("CLI batch run failed in the C06 overwrite layer".into());
+                    }
+                    if let Ok(rd) = std::fs::read_dir(&d) {
+                        for e in rd.flatten() {
+                            let bytes = std::fs::read(e.path()).unwrap_or_default();
+                            let cfg = Config {
+                                min: 5,
+                                max: 10,
+                                ..Config::default_for(proto, Entropy::Seed(0))
+                            };
+                            let res = CaseResult { outcome: Outcome::Ok(bytes), events: vec![] };
+                            let before = acc.violations.len();
+                            check_c06(&cfg, &res, acc);
+                            // trailing bytes after STOP also mean "something follows the frame"
+                            if let Outcome::Ok(b) = &res.outcome {
+                                if let Ok(l) = crate::lexer::lex(b) {
+                                    if l.end != b.len() && acc.violations.len() == before {
+                                        let msg = format!("file written by the CLI has {} bytes after STOP (protocol {})", b.len() - l.end, proto);
+                                        acc.violate(Violation {
+                                            property: "C06".into(),
+                                            signature: format!("C06:cli_file:trailing:P{}", proto),
+                                            message: msg.clone(),
+                                            replay: json!({"kind": "c06-cli", "property": "C06", "protocol": proto, "message": msg,
+                                                "history": "batch run with 200..300 opcodes, then 5..10 opcodes into the same --dir"}),
+                                        });
+                                    }
+                                }
+                            }
+                            for v in acc.violations.iter_mut().skip(before) {
+                                if !v.signature.starts_with("C06:cli_file:") {
+                                    v.signature = v.signature.replace("C06:", "C06:cli_file:");
+                                }
+                                v.message = format!("[file written by the CLI into a directory that already held longer files] {}", v.message);
+                            }
+                            acc.count("cli_files_checked", 1);
+                        }
+                    }
+                    let _ = std::fs::remove_dir_all(&d);
+                },
+                |a, b| a.merge(b),
+            );
+            acc.merge(fe);
+            if acc.get("cli_files_checked") < 100 {
+                acc.inconclusive.push("too few CLI-written files checked".into());
+            }
+        }
         if acc.get("framed_pickles") < 1000 {
             acc.inconclusive.push("too few framed pickles observed".into());
         }
